@@ -738,6 +738,11 @@ class SStr:
     def lower_if_concrete(self):
         return ''.join(chr(x) for x in self.c) if self.is_concrete() else self
 
+    def zfill(self, n):
+        # (sign characters are not handled: callers render non-negative numbers)
+        pad = n - len(self.c)
+        return ('0' * pad + self) if pad > 0 else self
+
     def __len__(self):
         return len(self.c)
 
